@@ -38,8 +38,8 @@ STUBS = [
 ]
 FLOAT_MODE = ("R-mode exact reals for amplitudes/detunings/weights; concrete binary64 for e^{-i phi} and interaction strengths, compared "
               "within 1e-6 absolute (+1e-9 relative on interaction strengths)")
-BOUNDS = {"quick": dict(programs=9, atoms="2-3", levels="2-3", times="every integer t in [0,T), T <= 48"),
-          "thorough": dict(programs=13, atoms="2-3", levels="2-3", times="every integer t in [0,T), T <= 64")}
+BOUNDS = {"quick": dict(programs=10, atoms="2-3", levels="2-3", times="every integer t in [0,T), T <= 48"),
+          "thorough": dict(programs=15, atoms="2-3", levels="2-3", times="every integer t in [0,T), T <= 64")}
 OUTSIDE = ["noise models (random draws, collapse operators)", "sampling_rate < 1 (spline interpolation between samples)",
            "output modulation", "t = T (the extra sample appended by the emulator)",
            "two pulses with non-zero amplitude at the same time on the same atom and basis",
@@ -237,6 +237,14 @@ PROGRAMS = {
         ["add_dmm", "dmm_0", ["ramp", 6, S("e0", lo=-10, hi=-5), S("e1", lo=-5, hi=0)]],
         ["add", "l", ["cp", 8, A("a0"), D("d0"), 4.07], "no-delay"],
         ["add_dmm", "dmm_0", ["const", 5, S("e2", lo=-20, hi=0)], "wait-for-all"]]),
+    # the detuning map is configured BEFORE the channels are declared (the DMM is the first channel of the samples)
+    "dmm_first": dict(device="mock", reg="tri3", prog=[
+        ["config_dmap", {"q0": 1.0, "q1": 0.5, "q2": S("w2", lo=0, hi=1)}, "dmm_0"],
+        ["declare", "l", "rydberg_local", "q1"], ["declare", "g", "rydberg_global"],
+        ["add", "l", ["cp", 8, A("a0"), D("d0"), 0.4]],
+        ["add_dmm", "dmm_0", ["const", 6, -2.5]],
+        ["target", "l", "q2"], ["add", "l", ["cp", 5, A0("a1"), D("d1"), 0.9]],
+        ["add", "g", ["cp", 7, A("a2"), D("d2"), 1.3], "no-delay"]]),
     # SLM mask in Ising mode (DMM pulse during the first global pulse)
     "slm_ising": dict(device="mock", reg="tri3", prog=[
         ["declare", "g", "rydberg_global"], ["config_slm", ["q0", "q2"]],
@@ -250,6 +258,12 @@ PROGRAMS = {
         ["add", "mw", ["cp", 5, A0("a1"), D("d1"), 4.81]],
         ["delay", "mw", 2],
         ["add", "mw", ["pulse", ["ramp", 4, S("a2", lo=0, hi=5), S("a3", lo=5, hi=10)], ["const", 4, D("d2")], 5.18]]]),
+    # 2D, two masked atoms, first pulse (= mask) ending at t = 13, a second channel-less stretch afterwards
+    "xy_slm2": dict(device="mock", reg="perm3", mag=(0.0, 3.0, 1.0), prog=[
+        ["declare", "mw", "mw_global"], ["config_slm", ["q0", "q2"]],
+        ["add", "mw", ["cp", 13, A("a0"), D("d0"), 0.8]],
+        ["delay", "mw", 4],
+        ["add", "mw", ["cp", 5, A0("a1"), D("d1"), 2.3]]]),
     "xy_plain": dict(device="mock", reg="perm3", prog=[
         ["declare", "mw", "mw_global"],
         ["add", "mw", ["cp", 6, A0("a0"), D("d0"), 1.3]],
@@ -285,7 +299,7 @@ PROGRAMS = {
         ["target", "l", ["q0", "q1"]],
         ["add", "l", ["pulse", ["custom", [A0("c0"), A0("c1"), A0("c2"), A0("c3")]], ["const", 4, D("d2")], 3.9]]]),
 }
-QUICK = ["ising_all", "digital", "perm", "dmm", "slm_ising", "xy_slm", "two_glob", "glob_then_local", "eom"]
+QUICK = ["ising_all", "digital", "perm", "dmm", "dmm_first", "slm_ising", "xy_slm", "two_glob", "glob_then_local", "eom"]
 
 BASIS_AB = {"ground-rydberg": ("r", "g"), "digital": ("g", "h"), "XY": ("u", "d")}  # (|b>, |a>): |b> = (1,0), |a> = (0,1)
 
